@@ -16,8 +16,8 @@ namespace EG
 def ssCfg : Sg.SSCfg where
   mapOf := fun c => if c ≤ 2 then 0 else if c = 3 then 1 else 2
   keyOf := fun m a =>
-    if m = 2 then [0, 1, 1, 1, 1, 1, 2, 2, 2, 1, 1, 1, 1].getD a 9      -- len(args) + len(kwargs)
-    else [0, 1, 1, 1, 2, 3, 4, 4, 5, 6, 7, 8, 8].getD a 9               -- ==-class of (args, json(kwargs))
+    if m = 2 then [0, 1, 1, 1, 1, 1, 2, 2, 2, 1, 1, 1, 1, 2, 2].getD a 9      -- len(args) + len(kwargs)
+    else [0, 1, 1, 1, 2, 3, 4, 4, 5, 6, 7, 8, 8, 9, 10].getD a 11            -- ==-class of (args, json(kwargs))
 
 
 namespace Tab
